@@ -59,6 +59,53 @@ def worker_init(args):
 	import h5py  # noqa
 	sx.install()
 	zygote.start()
+	_warm_up()
+
+
+def _warm_up():
+	"""Line-event counts in gambit frames depend a little on what the process has executed before: CPython 3.12
+	traces a code object slightly differently the first time, and libraries cache dispatch decisions (cattrs hook
+	factories, singledispatch), so a lambda in gambit.util.json runs only on first use. Every worker therefore
+	executes a few fixed histories - under the tracer, never judged - before its first real run, so that the k-th
+	line event is the same place in every process."""
+	from .. import engine
+	root = engine.scratch_root()
+	for r in range(2):
+		try:
+			engine.execute(_warm_scenario, PROP, 987654321, r, 'quick', root=root)
+		except Exception:
+			pass
+
+
+def _warm_scenario(ctx):
+	# a history that visits every operation kind once, every command traced with a trigger that never fires
+	ch = ctx.ch
+	kspec = draw_kspec(ch, default_every=15)
+	rng = random.Random(ch.subseed('refworld'))
+	world = R.build(ctx, rng, kspec, 4)
+	pool = Q.build(ctx, random.Random(ch.subseed('pool')), world, 3)
+	omp.set_threads(2)
+	mon = Monitor(ctx, world)
+	archive = []
+	for c in range(12):
+		L = f'w{c}'
+		ck, args = _cli_ops(ctx, ch, L, world, pool, c)
+		with LineTrigger(10 ** 9, 'interrupt'):
+			res, _ = run_cli(ctx, args, Knobs(ch, L, with_chunk=True, nrefs=4), chunk=True)
+		if ck == 'query' and '-f' in args and args[args.index('-f') + 1] == 'archive' and res.status == 0:
+			archive.append(args[args.index('-o') + 1])
+		fk, fargs = _failing(ctx, ch, L + 'f', world, pool, c)
+		with LineTrigger(10 ** 9, 'interrupt'):
+			run_cli(ctx, fargs, Knobs(ch, L + 'f', with_chunk=False))
+		try:
+			_library_op(ctx, ch, L + 'l', world, pool, archive)
+		except Exception:
+			pass
+		try:
+			_session_abuse(ctx, ch, L + 's', world, mon, [])
+		except Exception:
+			pass
+	sqlmon.watch(None)
 
 
 def worker_exit():
@@ -396,8 +443,8 @@ def scenario(ctx):
 				res, h = run_cli(ctx, args, knobs)
 			desc = f'command {ck} interrupted at line event {k}'
 			if trig.fired:
-				ctx.fault('interrupt_at_line_event', k=k, where=trig.where)
-			ctx.log('op', op=kind, cmd=ck, k=k, fired=trig.fired, where=trig.where, status=res.status)
+				ctx.fault('interrupt_at_line_event', k=k)
+			ctx.log('op', op=kind, cmd=ck, k=k, fired=trig.fired, status=res.status)
 		elif kind == 'killed':
 			ck, args = _cli_ops(ctx, ch, L, world, pool, c)
 			k = int(round(10 ** (ch.int(0, 380, L + '.k') / 100.0)))
